@@ -19,6 +19,7 @@ Streams
              the families polynomial (doubling ratio) and under the model bound
 """
 import itertools
+import json
 import os
 import shutil
 import signal
@@ -696,6 +697,21 @@ def stream_e2e(ctx, cap):
             if not ctx.quick:
                 positions += name_positions(src)
             e2e_one(ctx, counter, label, src, positions[:ctx.size(1, 30)], cap, timeout, 'fixed')
+        # corpus: minimised past inputs and upstream's own recursion test file
+        cdir = os.path.join(common.CORPUS_DIR, 'C15')
+        for fn in sorted(os.listdir(cdir)) if os.path.isdir(cdir) else []:
+            with open(os.path.join(cdir, fn), encoding='utf-8') as f:
+                item = json.load(f)
+            pos = item.get('positions') or name_positions(item['source'])
+            if ctx.quick and len(pos) > 40:
+                pos = rng.sample(pos, 40)
+            saved = list(QUERIES)
+            try:
+                if ctx.quick:
+                    QUERIES[:] = ['infer', 'complete']
+                e2e_one(ctx, counter, 'corpus:' + fn, item['source'], [tuple(p) for p in pos], cap, timeout, 'corpus')
+            finally:
+                QUERIES[:] = saved
         # random definition graphs
         for i in range(ctx.size(25, 400)):
             src, uses, meta = P.gen_graph_program(rng, 40)
